@@ -161,7 +161,7 @@ trait Dut<F> {
     fn set_h(&mut self, a: f64, b: f64);
     fn until(&mut self, cap: usize) -> usize;
     /// `into_source()` (also `source()` / `source_mut()` first): the next two frames of the source handed back
-    fn finish(self: Box<Self>) -> Vec<F>;
+    fn finish(self: Box<Self>) -> (Vec<F>, bool);
 }
 impl<S: Signal, I: Interpolator<Frame = S::Frame>> Dut<S::Frame> for Converter<S, I> {
     fn exh(&self) -> bool { self.is_exhausted() }
@@ -171,15 +171,15 @@ impl<S: Signal, I: Interpolator<Frame = S::Frame>> Dut<S::Frame> for Converter<S
     fn set_s(&mut self, s: f64) { self.set_sample_hz_scale(s) }
     fn set_h(&mut self, a: f64, b: f64) { self.set_hz_to_hz(a, b) }
     fn until(&mut self, cap: usize) -> usize { self.by_ref().until_exhausted().take(cap).count() }
-    fn finish(mut self: Box<Self>) -> Vec<S::Frame> {
+    fn finish(mut self: Box<Self>) -> (Vec<S::Frame>, bool) {
         let e0 = self.source().is_exhausted();
         let a = self.source_mut().next();
         let e1 = self.source().is_exhausted();
         let mut s = self.into_source();
         let e2 = s.is_exhausted();
-        assert!(e1 == e2 && (!e0 || e1), "source()/source_mut()/into_source() disagree about exhaustion");
         let b = s.next();
-        vec![a, b]
+        // the three accessors see one and the same source: exhaustion never reverts, and into_source() pulls nothing
+        (vec![a, b], e1 == e2 && (!e0 || e1))
     }
 }
 /// `Signal::mul_hz` with a never-exhausted control signal fed from a queue
@@ -192,7 +192,7 @@ impl<M: Signal> Dut<M::Frame> for MulDut<M> {
     fn set_s(&mut self, _: f64) { unreachable!() }
     fn set_h(&mut self, _: f64, _: f64) { unreachable!() }
     fn until(&mut self, _: usize) -> usize { unreachable!() }
-    fn finish(self: Box<Self>) -> Vec<M::Frame> { unreachable!() }
+    fn finish(self: Box<Self>) -> (Vec<M::Frame>, bool) { unreachable!() }
 }
 
 fn build<F: Fr, I: Interpolator<Frame = F> + 'static>(src: Counted<signal::FromIterator<std::vec::IntoIter<F>>>, ip: I, ctor: Ctor) -> Option<Box<dyn Dut<F>>>
@@ -240,6 +240,7 @@ where F::Sample: dasp_sample::Duplex<f64> {
     for f in &c.frames { for t in f.show().split(',') { op_line.push(' '); op_line.push_str(t); } }
     for o in &c.ops { op_line.push(' '); op_line.push_str(&show_op(o)); }
     let case_text = op_line.clone();
+    mark(0, &case_text);
 
     let pulls = Rc::new(Cell::new(0u64));
     let mut src = Counted { inner: signal::from_iter(c.frames.clone().into_iter()), pulls: pulls.clone() };
@@ -447,14 +448,14 @@ where F::Sample: dasp_sample::Duplex<f64> {
     if fin {
         // what is left behind: the source handed back continues exactly after the frames the converter pulled
         let before = pulls.get();
-        let fs = dut.finish();
+        let (fs, flags_ok) = dut.finish();
         let after = pulls.get();
         evals += 3;
         obs.push(format!("z{}/{}", fs.iter().map(|f| f.show()).collect::<Vec<_>>().join(";"), after));
         st.count("op_into_source");
         let want = [src_at(&c.frames, before as u128), src_at(&c.frames, before as u128 + 1)];
-        if fs.len() == 2 && fs[0] == want[0] && fs[1] == want[1] && after == before + 2 { st.oracle_ok(1); }
-        else { st.oracle_fail("source()/source_mut()/into_source(): the source handed back does not continue right after the frames the converter pulled", &case_text, &format!("{};{}/{}", want[0].show(), want[1].show(), before + 2), &format!("{}/{}", fs.iter().map(|f| f.show()).collect::<Vec<_>>().join(";"), after)); }
+        if fs.len() == 2 && fs[0] == want[0] && fs[1] == want[1] && after == before + 2 && flags_ok { st.oracle_ok(1); }
+        else { st.oracle_fail("source()/source_mut()/into_source(): the source handed back does not continue right after the frames the converter pulled", &case_text, &format!("{};{}/{}", want[0].show(), want[1].show(), before + 2), &format!("{}/{} (is_exhausted of source() / source_mut() / into_source() consistent: {})", fs.iter().map(|f| f.show()).collect::<Vec<_>>().join(";"), after, flags_ok)); }
     }
     if saw_multi { st.count("case_with_multi_pull_output"); }
     if saw_exh { st.count("case_reaching_exhaustion"); }
